@@ -1,16 +1,251 @@
-"""C02 — see DESIGN.md section 3."""
-from mc import pool, words
+"""C02 — Parsing always terminates with a verdict: no exception, no hang.
+
+(a) every execution of the parser scenarios (E1), (b) exhaustive byte-edit neighbourhoods of a corpus of
+short scripts (E3), given as bytes, as str and through parse_file, on fresh and reused parsers,
+(c) pumped families for the linear step bound."""
+import itertools
+import os
+import shutil
+import tempfile
+
+from mc import pool, words, seams, parser_engine as E
 from . import parser_common as PC
 
 ORACLES = ["c02"]
 
+CORPUS = [
+    b'keep;',
+    b'require "fileinto";\nfileinto "a";\n',
+    b'if true { stop; }',
+    b'if not exists ["a","b"] { discard; } else { keep; }',
+    b'if size :over 10K { keep; }',
+    b'# c\nif anyof (true, false) { keep; } /* c */',
+    b'require "reject";\nreject text:\nab\n..c\n.\n;',
+    b'if header :is "a\\"b" "\xc3\xa9" { keep; }',
+    b'require ["imap4flags"];\nif hasflag "a" { addflag "b" ["c"]; }',
+    b'if address :all :comparator "i;octet" "To" "x" { keep; }',
+    b'require "vacation";\nvacation :days 1 :addresses ["a"] "r";',
+    b'if allof (not true, header :matches "a" "*") { keep; } elsif false { stop; }',
+    b'unknown; control; action; test; command;',
+]
+EDIT_BYTES = [0x00, 0x22, 0x5C, 0x0A, 0x0D, 0x7B, 0x7D, 0x28, 0x5B, 0x2F, 0x2A, 0x23, 0x3A, 0x2E, 0x80, 0xC3, 0xFF,
+              0x20, 0x61, 0x30, 0x3B, 0x2C, 0x29, 0x5D]
+
+
+def single_edits(s):
+    n = len(s)
+    for i in range(n + 1):
+        yield s[:i]  # truncation
+    for i in range(n):
+        yield s[:i] + s[i + 1:]  # deletion
+        for b in EDIT_BYTES:
+            yield s[:i] + bytes([b]) + s[i + 1:]  # substitution
+    for i in range(n + 1):
+        for b in EDIT_BYTES:
+            yield s[:i] + bytes([b]) + s[i:]  # insertion
+
+
+def double_edits(s):
+    seen = set()
+    for e1 in single_edits(s):
+        for e2 in single_edits_light(e1):
+            if e2 not in seen:
+                seen.add(e2)
+                yield e2
+
+
+LIGHT = [0x22, 0x5C, 0x0A, 0x7B, 0x28, 0x5B, 0x2A, 0xC3]
+
+
+def single_edits_light(s):
+    n = len(s)
+    for i in range(n):
+        yield s[:i] + s[i + 1:]
+        for b in LIGHT:
+            yield s[:i] + bytes([b]) + s[i + 1:]
+
+
+def _judge(text, mode, reused, tmpdir, viols, counts, distinct):
+    """mode: 'bytes' | 'str' | 'file'"""
+    kw = {}
+    arg = text
+    if mode == "str":
+        try:
+            arg = text.decode("utf-8")
+        except UnicodeDecodeError:
+            return
+    if mode == "file":
+        path = os.path.join(tmpdir, "s.sieve")
+        with open(path, "wb") as fp:
+            fp.write(text)
+        kw["via_file"] = path
+    obs = seams.run_parse(arg, parser=reused, want_tree=False, **kw)
+    counts[0] += 1
+    c = E.Case()
+    c.word = None
+    c.layout = mode
+    c.text = text
+    c.raw = None
+    c.obs = obs
+    c.pda, c.toks, c.lerr = E.ref_run(text)
+    c.v = c.pda.end(c.lerr)
+    distinct.add((obs.verdict, obs.error if obs.error else None))
+    for v in E.oracle_c02(c):
+        v["mode"] = mode
+        v["signature"] = v["signature"] + [mode if mode != "bytes" else None]
+        viols.append(v)
+
+
+def byte_task(t):
+    idx, double, with_modes = t
+    ns = seams.load()
+    s = CORPUS[idx]
+    viols = []
+    counts = [0]
+    distinct = set()
+    tmpdir = tempfile.mkdtemp(prefix="sievec02_")
+    reused = ns.parser.Parser()
+    try:
+        gen = double_edits(s) if double else single_edits(s)
+        for text in gen:
+            _judge(text, "bytes", None, tmpdir, viols, counts, distinct)
+            if with_modes:
+                _judge(text, "bytes", reused, tmpdir, viols, counts, distinct)
+                _judge(text, "str", None, tmpdir, viols, counts, distinct)
+                _judge(text, "file", reused, tmpdir, viols, counts, distinct)
+    finally:
+        shutil.rmtree(tmpdir, ignore_errors=True)
+    return dict(n=counts[0], distinct=len(distinct), violations=viols, sample=s.decode("utf-8", "replace"))
+
+
+FAMILIES = {
+    "commands": lambda n: b"keep;\n" * n,
+    "blocks": lambda n: b"if true {\n" * n + b"keep;" + b"}" * n,
+    "nots": lambda n: b"if " + b"not " * n + b"true { keep; }",
+    "list": lambda n: b"require [" + b",".join([b'"a"'] * n) + b"];",
+    "string": lambda n: b'redirect "' + b'a\\"' * n + b'";',
+    "hash": lambda n: b"#" + b"x" * n + b"\nkeep;",
+    "bracket": lambda n: b"/*" + b"*x/" * n + b"*/keep;",
+    "multiline": lambda n: b'require "reject"; reject text:\n' + b"line\n" * n + b".\n;",
+    "unterminated-string": lambda n: b'redirect "' + b"a" * n,
+    "unterminated-comment": lambda n: b"/*" + b"*x" * n,
+    "unterminated-multiline": lambda n: b'require "reject"; reject text:\n' + b"\n" * n,
+    "unterminated-blocks": lambda n: b"if true {" * n,
+    "elsif-chain": lambda n: b"if true {}" + b" elsif true {}" * n,
+    "testlist": lambda n: b"if anyof (" + b",".join([b"true"] * n) + b") {keep;}",
+    "nested-testlists": lambda n: b"if " + b"anyof (" * n + b"true" + b")" * n + b" {keep;}",
+    "tags": lambda n: b'require "vacation"; vacation ' + b":mime " * n + b'"r";',
+    "garbage": lambda n: b"&" * n,
+    "numbers": lambda n: b"if size :over " + b"9" * n + b" {keep;}",
+}
+NESTING = {"blocks", "nots", "unterminated-blocks", "nested-testlists"}
+
+
+def pump_task(t):
+    name, kmax = t
+    viols = []
+    rows = []
+    import time
+
+    n_exec = 0
+    for k in range(1, kmax + 1):
+        n = 2 ** k
+        text = FAMILIES[name](n)
+        t0 = time.perf_counter()
+        obs = seams.run_parse(text, want_tree=False)
+        dt = time.perf_counter() - t0
+        n_exec += 1
+        c = E.Case()
+        c.word = None
+        c.layout = "pumped"
+        c.text = text[:200] + b"..." if len(text) > 400 else text
+        c.raw = None
+        c.obs = obs
+        c.toks = []
+        c.lerr = None
+        c.pda = E.Pda()
+        c.v = None
+        rows.append((n, len(text), obs.steps, obs.verdict, round(dt, 4)))
+        nl = text.count(b"\n")
+        for v in _c02_light(c, nl, name, n):
+            viols.append(v)
+    return dict(family=name, rows=rows, violations=viols, n=n_exec)
+
+
+def _c02_light(c, nl, family, n):
+    """oracle_c02 without reference tokens (inputs are huge): verdict class, error shape, step bound"""
+    obs = c.obs
+    out = []
+
+    def mk(direction, reason, what):
+        return {"property": "C02", "signature": ["C02", direction, reason, "family:" + family, None, None], "what": what,
+                "engine": "pump", "family": family, "n": n, "text": c.text.decode("utf-8", "replace"), "observed": obs.brief()}
+
+    if obs.verdict == "HANG":
+        out.append(mk("hang", "STEPS", "family %s n=%d: %s after %d lexer steps" % (family, n, obs.exc, obs.steps)))
+    elif obs.verdict == "EXC":
+        out.append(mk("exception", (obs.exc or "").split(":")[0], "family %s n=%d raised %s" % (family, n, obs.exc)))
+    elif obs.verdict == "BADRET":
+        out.append(mk("bad-return", "RET", "returned %r" % (obs.ret,)))
+    elif obs.verdict == "REJ":
+        m = E._LINE_RE.match(obs.error) if isinstance(obs.error, str) else None
+        if not m or not (1 <= int(m.group(1)) <= 1 + nl):
+            out.append(mk("error-format", "ERRFMT", "error=%r" % (obs.error,)))
+        ep = obs.error_pos
+        if not (isinstance(ep, tuple) and len(ep) == 3 and all(type(x) is int for x in ep)):
+            out.append(mk("error-pos-shape", "ERRPOS", "error_pos=%r" % (ep,)))
+    return out
+
 
 def run(tier, seed):
-    tasks = PC.make_tasks(tier, seed, ORACLES, layouts=["comments"], layout_depth=1)
+    tasks = PC.make_tasks(tier, seed, ORACLES, layouts=["comments"], layout_depth=1, include_noreq=True)
     results = pool.run_tasks("checks.parser_common:task", tasks)
     cov, viols, harness = PC.assemble(results)
-    return dict(violations=viols, coverage=cov, harness_errors=harness, assumptions=PC.ASSUMPTIONS)
+    # (b) byte-edit neighbourhoods
+    bt = [(i, False, True) for i in range(len(CORPUS))]
+    if tier == "thorough":
+        bt += [(i, True, False) for i in range(len(CORPUS)) if len(CORPUS[i]) <= 40]
+    rb = pool.run_tasks("checks.c02:byte_task", bt)
+    nb = sum(r["n"] for r in rb)
+    for r in rb:
+        viols.extend(r["violations"])
+    # (c) pumped families
+    kmax = 10 if tier == "quick" else 13
+    pt = [(name, min(kmax, 9 if tier == "quick" else 11) if name in NESTING else kmax) for name in sorted(FAMILIES)]
+    rp = pool.run_tasks("checks.c02:pump_task", pt)
+    for r in rp:
+        viols.extend(r["violations"])
+    npump = sum(r["n"] for r in rp)
+    cov["traces_validated_against_impl"] += nb + npump
+    cov["evaluations"] += nb + npump
+    cov["transitions"] += nb + npump
+    cov["distinct_nontrivial"] += sum(r["distinct"] for r in rb)
+    cov["byte_edits"] = dict(corpus=len(CORPUS), edit_alphabet=["0x%02x" % b for b in EDIT_BYTES], executions=nb,
+                             modes=["bytes/fresh parser", "bytes/reused parser", "str", "parse_file"],
+                             double_edits=(tier == "thorough"), exhaustive=True)
+    cov["pumped_families"] = {r["family"]: [dict(n=a, bytes=b, lexer_steps=c_, verdict=d, cpu_s_info_only=e) for a, b, c_, d, e in r["rows"][-3:]]
+                              for r in rp}
+    cov["samples"].append({"byte_edit_base": CORPUS[7].decode("utf-8")})
+    cov["rule"] += (" C02 adds: all single-byte substitutions/insertions from the edit alphabet, all deletions and truncations of each "
+                    "corpus script (thorough: double edits of scripts <= 40 bytes); pumped families n=2^k.")
+    return dict(violations=viols, coverage=cov, harness_errors=harness,
+                assumptions=PC.ASSUMPTIONS + ["step bound 3*len+16 lexer tokens is the hang/blow-up detector; CPU time inside one regex match is recorded, never judged"])
 
 
 def replay(payload):
-    return PC.replay_text(payload, ORACLES)
+    if payload.get("engine") == "pump":
+        text = FAMILIES[payload["family"]](payload["n"])
+        obs = seams.run_parse(text, want_tree=False)
+        c = E.Case()
+        c.text = text[:200]
+        c.obs = obs
+        return _c02_light(c, text.count(b"\n"), payload["family"], payload["n"])
+    text = bytes.fromhex(payload["text_hex"])
+    mode = payload.get("mode", "bytes")
+    viols = []
+    tmpdir = tempfile.mkdtemp(prefix="sievec02_")
+    try:
+        _judge(text, mode if mode in ("bytes", "str", "file") else "bytes", None, tmpdir, viols, [0], set())
+    finally:
+        shutil.rmtree(tmpdir, ignore_errors=True)
+    return viols
